@@ -679,6 +679,9 @@ func (l *lexer) lexRedir() action {
 		}
 	case IO_NUMBER:
 		goto Redir
+	case WORD:
+		// a reserved word may follow directly, e.g. "(a) then"
+		return l.lexCmd(tok)
 	}
 	return l.lexToken(tok)
 Redir:
